@@ -87,5 +87,17 @@ RareReportExact == RareTask =>
 CoverageIsPerBatch == \A c \in Cols : /\ Len(cov[c]) = Len(hist)
                                       /\ \A k \in DOMAIN hist : cov[c][k] = <<Cardinality({i \in DOMAIN hist[k] : hist[k][i][c] \notin MissingSyms}), Len(hist[k])>>
 
+\* the "(cardinality; coverage)" annotation of a feature name reports the MEAN of the per-batch coverage
+\* percentages (not the pooled percentage, not the median): as a rational <<numerator, denominator>> of the share
+Prod(seq) == FoldLeft(LAMBDA a, b : a * b, 1, seq)
+MeanCoverage(c) == LET K == Len(cov[c])
+                       lens == [k \in 1..K |-> cov[c][k][2]]
+                   IN <<FoldLeft(LAMBDA acc, k : acc + cov[c][k][1] * Prod([j \in 1..K |-> IF j = k THEN 1 ELSE lens[j]]), 0, [k \in 1..K |-> k]),
+                        K * Prod(lens)>>
+PooledCoverage(c) == <<Cardinality({i \in DOMAIN seen : seen[i][c] \notin MissingSyms}), Len(seen)>>
+\* with equal batch sizes the mean of the per-batch shares is the pooled share; with unequal ones it need not be
+MeanIsPooledForEqualBatches ==
+    \A c \in Cols : (hist # <<>> /\ \A k \in DOMAIN hist : Len(hist[k]) = Len(hist[1])) =>
+        MeanCoverage(c)[1] * PooledCoverage(c)[2] = PooledCoverage(c)[1] * MeanCoverage(c)[2]
 Emit == (buf = <<>> /\ hist # <<>>) => PrintT(<<"CASE", hist, sk, cnt, rare, cov>>)
 =============================================================================
